@@ -1,6 +1,7 @@
 package main
 
 import (
+	"strings"
 	"bytes"
 	"io"
 	"log"
@@ -29,7 +30,41 @@ func (n *testNode) Close() {
 
 // newTestNode creates a node configured like serf's own tests (aggressive timings).
 // mod may adjust the config before Create.
+// envError reports whether creating a node failed for a reason of the machine (another process holds the
+// address), not of the code under test.
+func envError(err error) bool {
+	if err == nil {
+		return false
+	}
+	m := err.Error()
+	return strings.Contains(m, "address already in use") || strings.Contains(m, "bind:") || strings.Contains(m, "Failed to start TCP listener") ||
+		strings.Contains(m, "Failed to start UDP listener") || strings.Contains(m, "too many open files") || strings.Contains(m, "cannot assign requested address")
+}
+
+// nodeErr is the harness output for a node that could not be created: `env-error` (the driver then treats the case
+// as inconclusive) when the machine is to blame, `node-error` otherwise.
+func nodeErr(err error) string {
+	if envError(err) {
+		return "env-error"
+	}
+	return "node-error"
+}
+
+// newTestNode creates a node; an address clash with another process is retried on other loopback addresses.
 func newTestNode(mod func(c *serf.Config)) (*testNode, error) {
+	var n *testNode
+	var err error
+	for attempt := 0; attempt < 8; attempt++ {
+		n, err = newTestNodeOnce(mod)
+		if err == nil || !envError(err) {
+			return n, err
+		}
+		time.Sleep(time.Duration(20*(attempt+1)) * time.Millisecond)
+	}
+	return n, err
+}
+
+func newTestNodeOnce(mod func(c *serf.Config)) (*testNode, error) {
 	ip, ret := testutil.TakeIP()
 	c := serf.DefaultConfig()
 	c.Init()
